@@ -489,4 +489,173 @@ Section Protocol.
       + eapply IH; eauto.
       + destruct t; [|discriminate]. inversion P; subst. exact H'.
   Qed.
+
+  (* ---- 6. the remaining single-worker transitions ---- *)
+  Lemma Inv_requeue : forall a f rp sn w s r, Inv a f rp sn -> resq (f w) = RDone s :: r ->
+    Inv a (upd f w (set_resq (f w) r (s :: requeued (f w)))) rp sn.
+  Proof.
+    intros a f rp sn w s r H Er.
+    assert (P : Permutation (infl (f w)) (infl (set_resq (f w) r (s :: requeued (f w))))).
+    { unfold infl. rewrite Er. cbn. apply Permutation_middle. }
+    apply Inv_upd; auto.
+    - apply incl_refl.
+    - apply (k_pend_nodup _ _ _ _ H).
+    - intros t. split; intros X; [eapply Permutation_in; [apply Permutation_sym, P | exact X] | eapply Permutation_in; [exact P | exact X]].
+    - eapply Permutation_NoDup; [exact P | apply (k_infl_nodup _ _ _ _ H)].
+  Qed.
+
+  Lemma Inv_terminate : forall a f rp sn w, Inv a f rp sn -> Inv a (upd f w (set_term (f w))) rp sn.
+  Proof.
+    intros a f rp sn w H. pose proof (k_pend_nodup _ _ _ _ H w) as N.
+    apply Inv_upd; auto; unfold pend, set_term in *; cbn.
+    - destruct (phase (f w)); cbn; try apply incl_refl. apply incl_tl, incl_refl.
+    - destruct (phase (f w)); cbn in *; try exact N. inversion N; assumption.
+    - tauto.
+    - apply (k_infl_nodup _ _ _ _ H).
+    - intros s X. destruct (phase (f w)); cbn in *; auto.
+    - intros E. rewrite E. reflexivity.
+    - destruct (phase (f w)); cbn; auto; discriminate.
+  Qed.
+
+  Definition SInv (st : pst) : Prop := Inv (o st) (ws st) (replies st) (sent st).
+
+  Ltac des S := repeat (dm S; try discriminate S).
+
+  Lemma step_SInv : forall st l st', SInv st -> step c st l = Some st' -> SInv st'.
+  Proof.
+    intros st l st' H S. unfold SInv in *. destruct l; cbn in S.
+    - (* OHead *) des S; inv_some S; exact H.
+    - (* OVisit *) des S; inv_some S; cbn; apply Inv_ovisit; auto; eapply nth_error_In'; eauto.
+    - (* OPoll *) des S; inv_some S; cbn; eapply poll_Inv; eauto.
+    - (* OCollect *)
+      destruct (pc st); try discriminate S. destruct (nth_error p i) as [s|] eqn:En; [|discriminate S].
+      destruct (negb (is_fin s (o st)) && cur_running s (o st) && mem (sid s) (done (o st))); [|discriminate S].
+      assert (Hs : In s p) by (eapply nth_error_In'; eauto).
+      destruct (skind s), ok; try discriminate S.
+      + destruct (mp c && spawned (phase (ws st (wdrop c (sid s))))); inv_some S; cbn.
+        * apply Inv_upd_same; [apply Inv_ovisit; auto | | reflexivity | auto | auto].
+          unfold pend; cbn. rewrite csteps_app. cbn. rewrite app_nil_r. reflexivity.
+        * apply Inv_ovisit; auto.
+      + inv_some S. exact H.
+      + inv_some S. cbn. apply Inv_ovisit; auto.
+      + inv_some S. cbn. apply Inv_ovisit; auto.
+    - (* ORequeue *) des S; inv_some S; cbn. apply Nat.eqb_eq in Heqb0. subst. apply Inv_requeue; auto.
+    - (* OGot *) des S; inv_some S; cbn. apply Inv_upd_same; auto. unfold infl; cbn. rewrite Heql. reflexivity.
+    - (* OTimeout *) des S; inv_some S; exact H.
+    - (* OExec *)
+      destruct (pc st); try discriminate S. destruct (nth_error p i) as [s|] eqn:En; [|discriminate S].
+      destruct (negb (is_fin s (o st)) && negb (cur_running s (o st)) && can_run s (o st)) eqn:G; [|discriminate S].
+      apply andb_true_iff in G. destruct G as [G G3]. apply andb_true_iff in G. destruct G as [G1 G2].
+      apply negb_true_iff in G1, G2.
+      assert (Hs : In s p) by (eapply nth_error_In'; eauto).
+      destruct ok; [|inv_some S; cbn; apply Inv_ovisit; auto].
+      assert (Hns : ~ In (sid s) (started_ids (o st))).
+      { apply (not_started_when_startable p Hne); auto. apply (k_i23 _ _ _ _ H). }
+      assert (Hst : In (sid s) (started_ids (ovisit (o st) s))).
+      { unfold started_ids. rewrite (ovisit_start_started _ _ G1 G2 G3). left. reflexivity. }
+      unfold submit in S. destruct (mp c) eqn:Em.
+      + destruct (spawned (phase (ws st (wof c (sid s))))) eqn:Esp; inv_some S; cbn.
+        * apply Inv_submit; [exact H | exact Hs | exact Hns | exact Hst | intros X; congruence |].
+          left. repeat split; auto.
+          unfold pend; cbn. rewrite csteps_app. cbn. rewrite app_assoc. reflexivity.
+        * apply Inv_submit; [exact H | exact Hs | exact Hns | exact Hst | intros X; congruence |].
+          right. repeat split; auto.
+      + inv_some S. cbn. apply Inv_submit; [exact H | exact Hs | exact Hns | exact Hst | reflexivity |].
+        right. repeat split; auto.
+    - (* OEndScan *) des S; inv_some S; cbn; try apply Inv_drain; apply Inv_bump; exact H.
+    - (* OResume *) des S; inv_some S; exact H.
+    - (* OAbandon *) des S; inv_some S; exact H.
+    - (* OArtifacts *) des S; inv_some S; exact H.
+    - (* OTerminate *) des S; inv_some S; cbn. apply Inv_terminate; auto.
+    - (* OJoin *) des S; inv_some S; cbn; apply Inv_upd_same; auto.
+    - (* OClose *) des S; inv_some S; exact H.
+    - (* ODropAll *) des S; inv_some S; exact H.
+    - (* WTake *)
+      destruct (phase (ws st w)) eqn:Eph; try discriminate S. destruct (cmdq (ws st w)) as [|cm t] eqn:Eq; [discriminate S|].
+      inv_some S. cbn. apply Inv_upd_same; auto.
+      + unfold pend. rewrite Eph, Eq. cbn. destruct cm; reflexivity.
+      + rewrite Eph. discriminate.
+      + cbn. destruct cm; discriminate.
+    - (* WUpload *) des S; inv_some S; exact H.
+    - (* WDone *)
+      destruct (phase (ws st w)) eqn:Eph; try discriminate S. destruct (wfail c s); [discriminate S|].
+      assert (Hpe : In s (pend (ws st w))) by (unfold pend; rewrite Eph; left; reflexivity).
+      destruct (Inv_pend_fresh _ _ _ _ H w s Hpe) as (G1 & G2 & G3).
+      assert (Hnr : forall k, ~ In s (infl (ws st k))).
+      { intros k X. destruct (k_pend _ _ _ _ H w s Hpe) as [Hr _]. apply Hr. eapply in_fst. apply (k_infl _ _ _ _ H k s X). }
+      destruct (mp c) eqn:Em; inv_some S; cbn.
+      + apply Inv_reply with (a := o st).
+        * exact H.
+        * unfold pend. rewrite Eph. reflexivity.
+        * rewrite Eph. discriminate.
+        * reflexivity.
+        * apply (k_i1 _ _ _ _ H).
+        * apply (k_i23 _ _ _ _ H).
+        * reflexivity.
+        * intros t X. left. exact X.
+        * intros t. split; [intros X; left; exact X | intros [X|[_ X]]; [exact X | discriminate]].
+        * unfold infl; cbn. rewrite rdones_app. cbn. intros t X. apply in_app_or in X. destruct X as [X|X].
+          -- apply in_app_or in X. destruct X as [X|[<-|[]]]; [left; apply in_or_app; left; exact X | right; auto].
+          -- left. apply in_or_app. right. exact X.
+        * unfold infl; cbn. rewrite rdones_app. cbn. rewrite <- app_assoc. cbn.
+          apply (Permutation_NoDup (l := s :: rdones (resq (ws st w)) ++ requeued (ws st w))); [apply Permutation_middle|].
+          constructor; [apply (Hnr w) | apply (k_infl_nodup _ _ _ _ H w)].
+        * intros X. contradiction.
+        * intros t X _. exact X.
+        * intros X. congruence.
+      + assert (Ea : worker_done (o st) s true = add_done s (o st)) by (apply worker_done_add_done; auto).
+        apply Inv_reply with (a := o st).
+        * exact H.
+        * unfold pend. rewrite Eph. reflexivity.
+        * rewrite Eph. discriminate.
+        * reflexivity.
+        * rewrite <- Ea. apply (proj2 (proj2 (proj2 stable_I1))), (k_i1 _ _ _ _ H).
+        * rewrite <- Ea. apply (proj2 (proj2 (proj2 stable_I23))), (k_i23 _ _ _ _ H).
+        * reflexivity.
+        * cbn. intros t [<-|X]; auto.
+        * cbn. intros t. split; [intros X; left; exact X | intros [X|[_ X]]; [exact X | discriminate]].
+        * intros t X. left. exact X.
+        * apply (k_infl_nodup _ _ _ _ H).
+        * intros _. apply Hnr.
+        * cbn. intros t [<-|X] Ne; [congruence | exact X].
+        * intros _. apply (proj2 (k_thr _ _ _ _ H Em)).
+    - (* WFail *)
+      destruct (phase (ws st w)) eqn:Eph; try discriminate S. destruct (wfail c s); [|discriminate S].
+      destruct (crashpt_eqb c0 c1); [|discriminate S]. inv_some S. cbn.
+      assert (Hpe : In s (pend (ws st w))) by (unfold pend; rewrite Eph; left; reflexivity).
+      destruct (Inv_pend_fresh _ _ _ _ H w s Hpe) as (G1 & G2 & G3).
+      assert (Ea : worker_done (o st) s false = add_failed s (o st)) by (apply worker_done_add_failed; auto).
+      apply Inv_reply with (a := o st).
+      + exact H.
+      + unfold pend. rewrite Eph. destruct (mp c); cbn; [rewrite csteps_app; cbn; rewrite app_nil_r|]; reflexivity.
+      + rewrite Eph. discriminate.
+      + reflexivity.
+      + rewrite <- Ea. apply (proj2 (proj2 (proj2 stable_I1))), (k_i1 _ _ _ _ H).
+      + rewrite <- Ea. apply (proj2 (proj2 (proj2 stable_I23))), (k_i23 _ _ _ _ H).
+      + reflexivity.
+      + cbn. intros t X. left. exact X.
+      + cbn. intros t. split; [intros [<-|X]; auto | intros [X|[-> _]]; auto].
+      + intros t X. left. destruct (mp c); exact X.
+      + destruct (mp c); apply (k_infl_nodup _ _ _ _ H).
+      + cbn. intros X. contradiction.
+      + cbn. intros t X _. exact X.
+      + intros Em. pose proof (proj2 (k_thr _ _ _ _ H Em) w) as T. rewrite Em. exact T.
+    - (* WDropAck *)
+      destruct (phase (ws st w)) eqn:Eph; try discriminate S.
+      destruct (Bool.eqb last (subset (children c w) (fs ++ trk (ws st w))) && (last || negb dropped)); [|discriminate S].
+      destruct last; inv_some S; cbn; apply Inv_upd_same; auto; unfold pend, infl; cbn; rewrite ?Eph, ?csteps_app, ?rdones_app; cbn;
+        rewrite ?app_nil_r; auto; try discriminate.
+    - (* WDropCrash *)
+      destruct (phase (ws st w)) eqn:Eph; try discriminate S. des S. inv_some S. cbn.
+      apply Inv_upd_same; auto; unfold pend; cbn; rewrite ?Eph; auto; discriminate.
+  Qed.
+
+  Lemma exec_SInv : forall tr st st', SInv st -> exec c st tr = Some st' -> SInv st'.
+  Proof.
+    induction tr as [|l tr IH]; intros st st' H E; cbn in E; [inversion E; subst; exact H|].
+    destruct (step c st l) as [st1|] eqn:S; [|discriminate]. eapply IH; [eapply step_SInv; eauto | exact E].
+  Qed.
+
+  Lemma reach_SInv : forall st, reach c st -> SInv st.
+  Proof. intros st [tr E]. eapply exec_SInv; [|exact E]. unfold SInv, pinit; cbn. apply Inv_init. Qed.
 End Protocol.
